@@ -447,11 +447,12 @@ Qed.
 Lemma execs_for_unique s c : NoDup (keys s) -> In c s -> execs_for (key c) s = c_execs c.
 Proof.
   induction s as [|o s IH]; intros ND Hc; [destruct Hc|].
-  inversion ND as [|? ? Ho Hs]; subst. cbn. destruct Hc as [Hc|Hc].
-  - subst o. rewrite key_eqb_refl, (execs_for_absent (key c) s Ho), app_nil_r. reflexivity.
-  - destruct (key_eqb (key c) (key o)) eqn:K.
+  inversion ND as [|? ? Ho Hs]; subst. specialize (IH Hs). destruct Hc as [Hc|Hc].
+  - subst o. pose proof (execs_for_absent (key c) s Ho) as A. unfold execs_for in *. cbn.
+    rewrite key_eqb_refl, A, app_nil_r. reflexivity.
+  - specialize (IH Hc). unfold execs_for in *. cbn. destruct (key_eqb (key c) (key o)) eqn:K.
     + apply key_eqb_iff in K. exfalso. apply Ho. rewrite <- K. unfold keys. apply in_map. exact Hc.
-    + cbn. apply IH; assumption.
+    + cbn. exact IH.
 Qed.
 
 Lemma existsb_execs_for q k s :
@@ -628,6 +629,11 @@ Theorem parse_go_kinds t :
   map (fun c => (c_name c, kind_of (c_execs c))) (parse_go t) = map (fun x => (fst x, go_kind (snd x))) t.
 Proof. unfold parse_go. rewrite map_map. apply map_ext. intros [nm r]. destruct r; reflexivity. Qed.
 
+Lemma filter_repeat_all {A} (p : A -> bool) a n : p a = true -> filter p (repeat a n) = repeat a n.
+Proof. intros H. induction n as [|n IH]; cbn; [reflexivity|]. rewrite H, IH. reflexivity. Qed.
+Lemma filter_repeat_none {A} (p : A -> bool) a n : p a = false -> filter p (repeat a n) = [].
+Proof. intros H. induction n as [|n IH]; cbn; [reflexivity|]. rewrite H. exact IH. Qed.
+
 (* a well-marked case never falls into the double-counting class, so for flat documents of well-marked cases
    all five counters are exact *)
 Lemma well_marked_not_double x : well_marked x = true -> double (to_case x) = false.
@@ -644,11 +650,8 @@ Proof.
     change (on_exec exec_Skip) with e_skip. change (on_exec exec_Failures) with e_fail. change (on_exec exec_Errors) with e_err.
     rewrite existsb_app, !existsb_repeat, !filter_app. cbn. rewrite !andb_false_r. cbn.
     rewrite !app_length.
-    assert (F1 : filter e_fail (repeat eFail ff) = repeat eFail ff) by (induction ff as [|m IH]; cbn; [reflexivity|rewrite IH; reflexivity]).
-    assert (F2 : filter e_err (repeat eErr fe) = repeat eErr fe) by (induction fe as [|m IH]; cbn; [reflexivity|rewrite IH; reflexivity]).
-    assert (F3 : filter e_fail (repeat eErr fe) = []) by (induction fe as [|m IH]; cbn; [reflexivity|exact IH]).
-    assert (F4 : filter e_err (repeat eFail ff) = []) by (induction ff as [|m IH]; cbn; [reflexivity|exact IH]).
-    rewrite F1, F2, F3, F4, !repeat_length. cbn. destruct ff, fe; reflexivity.
+    rewrite (filter_repeat_all e_fail eFail ff eq_refl), (filter_repeat_all e_err eErr fe eq_refl),
+      (filter_repeat_none e_fail eErr fe eq_refl), (filter_repeat_none e_err eFail ff eq_refl), !repeat_length. cbn. destruct ff, fe; reflexivity.
 Qed.
 
 Theorem parsed_counters_exact d :
@@ -677,3 +680,150 @@ Lemma dispatch_testcase : looks_like_junit (s "<testcase name=""x""/>") = true.
 Proof. vm_compute. reflexivity. Qed.
 Lemma dispatch_go : looks_like_junit (s "=== RUN   TestA") = false.
 Proof. vm_compute. reflexivity. Qed.
+
+(* ------------------------------------------------------------------------------------------------ *)
+(* parseTestOutput: when the exit status agrees with Failures() nothing is added *)
+
+Theorem parse_output_exact name no_output d ds r :
+  parse_results (d :: ds) [] = Some r ->
+  parse_output name no_output (negb (Nat.eqb (failures r) 0)) (d :: ds) = r.
+Proof.
+  intros H. unfold parse_output. rewrite H. destruct (Nat.eqb (failures r) 0); reflexivity.
+Qed.
+
+(* ------------------------------------------------------------------------------------------------ *)
+(* the property at full strength, its refutation by one witness per defect class, and the partial theorem *)
+
+Definition full_statement : Prop :=
+  (forall s, wf s -> passes s + flaky_passes s + failures s + errors s + skips s = tests s)
+  /\ (forall s, wf s ->
+        passes s = count_kind KPass s /\ flaky_passes s = count_kind KFlaky s /\ failures s = count_kind KFail s
+        /\ errors s = count_kind KError s /\ skips s = count_kind KSkip s)
+  /\ (forall n runs,
+        target_passes n runs = true <->
+        forall r c, In r (executed n runs) -> In c r ->
+          exists r' c', In r' (executed n runs) /\ In c' r' /\ key c' = key c /\ case_ok c' = true)
+  /\ (forall r, wf r -> target_results 1 [r] = r)
+  /\ (forall r, wf r -> target_passes 1 [r] = all_succeeded r)
+  /\ (forall n runs k, execs_for k (flake_run n runs) = execs_for k (concat (executed n runs)))
+  /\ (forall n runs, (forall r, In r runs -> wf r) -> wf (flake_run n runs))
+  /\ (forall d, parse_xml d = map to_case (doc_all d))
+  /\ (forall x, well_marked x = true -> kind_of (append_result x) = intended_kind x)
+  /\ (forall t, map (fun c => (c_name c, kind_of (c_execs c))) (parse_go t) = map (fun x => (fst x, go_kind (snd x))) t)
+  /\ (forall name d ds r, parse_results (d :: ds) [] = Some r ->
+        parse_output name false (negb (all_succeeded r)) (d :: ds) = r).
+
+(* witnesses *)
+Definition w_case (es : list exec) : tcase := mkCase (s "c") (s "A") es.
+Definition w_repeat : suite := [w_case [ePass; ePass]].                       (* passed twice *)
+Definition w_skip_pass : suite := [w_case [eSkip; ePass]].                    (* skipped, then passed *)
+Definition w_dup : suite := [w_case [ePass]; w_case [eFail]].                 (* one name, two cases, one fails *)
+Definition w_nested : list xtop :=
+  [XSuite (XS [mkX (s "c") (s "a") false false false 0 0 0 0]
+              [XS [mkX (s "c") (s "b") true false false 0 0 0 0] []])].
+Definition w_bare : list xtop := [XCase (mkX (s "c") (s "a") true false false 0 0 0 0)].
+Definition w_errors_only : datum := DXml [XSuite (XS [mkX (s "c") (s "a") false true false 0 0 0 0] [])].
+
+Lemma w_wf es : es <> [] -> wf [w_case es].
+Proof. intros H c [E|[]]. subst. exact H. Qed.
+
+Lemma refute_partition : ~ (forall s, wf s -> passes s + flaky_passes s + failures s + errors s + skips s = tests s).
+Proof. intros H. specialize (H w_repeat (w_wf [ePass; ePass] ltac:(discriminate))). vm_compute in H. discriminate. Qed.
+
+Lemma refute_kinds : ~ (forall s, wf s ->
+        passes s = count_kind KPass s /\ flaky_passes s = count_kind KFlaky s /\ failures s = count_kind KFail s
+        /\ errors s = count_kind KError s /\ skips s = count_kind KSkip s).
+Proof.
+  intros H. specialize (H w_skip_pass (w_wf [eSkip; ePass] ltac:(discriminate))). destruct H as [_ [_ [_ [_ H]]]].
+  vm_compute in H. discriminate.
+Qed.
+
+Lemma w_dup_wf : wf w_dup.
+Proof. intros c [E|[E|[]]]; subst; discriminate. Qed.
+
+Lemma refute_identity : ~ (forall r, wf r -> target_results 1 [r] = r).
+Proof. intros H. specialize (H w_dup w_dup_wf). vm_compute in H. discriminate. Qed.
+
+Lemma refute_single_pass : ~ (forall r, wf r -> target_passes 1 [r] = all_succeeded r).
+Proof. intros H. specialize (H w_dup w_dup_wf). vm_compute in H. discriminate. Qed.
+
+Lemma refute_parse_nested : parse_xml w_nested <> map to_case (doc_all w_nested).
+Proof. vm_compute. discriminate. Qed.
+
+Lemma refute_parse_bare : parse_xml w_bare <> map to_case (doc_all w_bare).
+Proof. vm_compute. discriminate. Qed.
+
+Lemma refute_exit_status :
+  ~ (forall name d ds r, parse_results (d :: ds) [] = Some r ->
+       parse_output name false (negb (all_succeeded r)) (d :: ds) = r).
+Proof.
+  intros H. specialize (H (s "t") w_errors_only [] _ eq_refl). vm_compute in H. discriminate.
+Qed.
+
+Theorem full_statement_refuted : ~ full_statement.
+Proof. intros [H _]. exact (refute_partition H). Qed.
+
+(* every conjunct touched by a defect class fails on its own *)
+Definition refuted_classes : Prop :=
+  ~ (forall s, wf s -> passes s + flaky_passes s + failures s + errors s + skips s = tests s)
+  /\ ~ (forall s, wf s ->
+        passes s = count_kind KPass s /\ flaky_passes s = count_kind KFlaky s /\ failures s = count_kind KFail s
+        /\ errors s = count_kind KError s /\ skips s = count_kind KSkip s)
+  /\ ~ (forall r, wf r -> target_results 1 [r] = r)
+  /\ ~ (forall r, wf r -> target_passes 1 [r] = all_succeeded r)
+  /\ ~ (forall d, parse_xml d = map to_case (doc_all d))
+  /\ ~ (forall name d ds r, parse_results (d :: ds) [] = Some r ->
+         parse_output name false (negb (all_succeeded r)) (d :: ds) = r).
+
+Theorem refuted_classes_hold : refuted_classes.
+Proof.
+  split; [exact refute_partition|]. split; [exact refute_kinds|]. split; [exact refute_identity|].
+  split; [exact refute_single_pass|]. split; [|exact refute_exit_status].
+  intros H. exact (refute_parse_nested (H w_nested)).
+Qed.
+
+(* the strongest statement the code supports: the same conjuncts, each guarded by the executable classifier of
+   its defect class (double / repeated keys / doc_flat / exit status compared with Failures() only), with the
+   exact size of the deviation where there is one *)
+Definition partial_statement : Prop :=
+  (forall s, passes s + flaky_passes s + failures s + errors s + skips s = tests s + count double s)
+  /\ (forall s, (forall c, In c s -> double c = false) ->
+        passes s + flaky_passes s + failures s + errors s + skips s = tests s)
+  /\ (forall s, wf s ->
+        passes s = count_kind KPass s /\ failures s = count_kind KFail s /\ errors s = count_kind KError s
+        /\ skips s = count_kind KSkip s + count (fun c => kind_eqb (kind_of (c_execs c)) KFlaky && has_skip c) s
+        /\ flaky_passes s = count_kind KFlaky s
+                            + count (fun c => kind_eqb (kind_of (c_execs c)) KPass && Nat.ltb 1 (length (c_execs c))) s)
+  /\ (forall s, all_succeeded s = true <-> forall c, In c s -> case_ok c = true)
+  /\ (forall n runs,
+        target_passes n runs = true <->
+        forall r c, In r (executed n runs) -> In c r ->
+          exists r' c', In r' (executed n runs) /\ In c' r' /\ key c' = key c /\ case_ok c' = true)
+  /\ (forall n runs, length (executed n runs) <= n /\ exists rest, runs = executed n runs ++ rest)
+  /\ (forall r, NoDup (keys r) -> target_results 1 [r] = r /\ target_passes 1 [r] = all_succeeded r)
+  /\ (forall s cs, NoDup (keys (s ++ cs)) -> add_all s cs = s ++ cs)
+  /\ (forall n runs k, execs_for k (flake_run n runs) = execs_for k (concat (executed n runs)))
+  /\ (forall n runs, (forall r, In r runs -> wf r) -> wf (flake_run n runs))
+  /\ (forall d, wf (parse_xml d)) /\ (forall t, wf (parse_go t))
+  /\ (forall d, doc_flat d = true -> parse_xml d = map to_case (doc_all d))
+  /\ (forall x, well_marked x = true -> kind_of (append_result x) = intended_kind x)
+  /\ (forall d, doc_flat d = true -> forallb well_marked (doc_all d) = true ->
+        let s := parse_xml d in
+        tests s = length (doc_all d)
+        /\ passes s + flaky_passes s + failures s + errors s + skips s = tests s
+        /\ forall k, count_kind k s = length (filter (fun x => kind_eqb (intended_kind x) k) (doc_all d)))
+  /\ (forall t, map (fun c => (c_name c, kind_of (c_execs c))) (parse_go t) = map (fun x => (fst x, go_kind (snd x))) t)
+  /\ (forall name no_output d ds r, parse_results (d :: ds) [] = Some r ->
+        parse_output name no_output (negb (Nat.eqb (failures r) 0)) (d :: ds) = r).
+
+Theorem partial_statement_holds : partial_statement.
+Proof.
+  split; [exact counters_partition|]. split; [exact counters_sum_exact|]. split; [exact counters_by_kind|].
+  split; [exact all_succeeded_spec|]. split; [exact target_passes_iff|].
+  split; [intros n runs; split; [apply executed_length|apply executed_prefix]|].
+  split; [intros r ND; split; [apply single_attempt_identity|apply single_attempt_passes]; exact ND|].
+  split; [intros s0 cs; apply add_all_distinct|]. split; [exact flake_run_execs|]. split; [exact flake_run_wf|].
+  split; [exact parse_xml_wf|]. split; [exact parse_go_wf|]. split; [exact parse_xml_flat|].
+  split; [exact append_result_kind|]. split; [exact parsed_counters_exact|]. split; [exact parse_go_kinds|].
+  exact parse_output_exact.
+Qed.
